@@ -832,6 +832,15 @@ func (ex *Exec) applyContract(p *Path, c *Contract, fn *types.Func, recv *Value,
 	}
 	oldGen := p.heapGen
 	// effects
+	if ex.traceEvents && c.Emitted {
+		f2 := fn
+		if fn.Origin() != nil {
+			f2 = fn.Origin()
+		}
+		if fi := ex.w.Funcs[f2.FullName()]; fi != nil && fi.Decl.Body != nil {
+			ex.havocEventsOf(p, fi)
+		}
+	}
 	for _, m := range c.Modifies {
 		if m == "*" {
 			ex.havocMutableHeap(p)
